@@ -9,7 +9,8 @@ I64 = IntTy(64); F64 = FloatTy(64)
 
 SCEN = {0: 'defaults only', 1: 'every option on the command line, three bunch currents, -f', 2: 'canonical names in a parent config file, alpha0 and no synchrotron frequency, two bunch currents',
         3: 'legacy aliases (steps, RFVoltage, SyncFreq) in a parent config file', 4: 'alpha0 and one bunch current on the command line',
-        5: 'parent config file giving both the legacy and the current name of steps / RF voltage / synchrotron frequency with different values', 6: 'legacy names in the parent config file, current names on the command line'}
+        5: 'parent config file giving both the legacy and the current name of steps / RF voltage / synchrotron frequency with different values', 6: 'legacy names in the parent config file, current names on the command line',
+        7: 'explicit /dev/null for the config file and the start distribution, empty tracking file, non-default derivation'}
 
 class StreamRec:
     """recorder of output streams: tokens ('s', text) ('f32'|'f64', term, precision in force in the stream that formatted it) ('i', term) ('nl',).
@@ -161,7 +162,9 @@ def job_save(res, sc):
         L = {}
         for ln in rec.lines():
             if ln and ln[0][0] == 's' and len(ln) >= 2:
-                key = ''.join(t[1] for t in ln if t[0] == 's').split('=')[0].lstrip('#').strip()
+                text = ''.join(t[1] for t in ln if t[0] == 's')
+                if text.lstrip().startswith('#'): continue          # a comment line: the reader ignores it, whatever key it mentions
+                key = text.split('=')[0].strip()
                 L.setdefault(key, []).append(ln)
         zero_case = case.startswith('f_s == 0')
         for key, (addr, ty) in sorted(var.items()):
@@ -220,7 +223,7 @@ def get_replayer(): return replayer(opts_build())
 def main(tier):
     chk = Check('C13', tier, '4/C13')
     bld = opts_build()
-    jobs = [(job_save, (sc,)) for sc in (0, 1, 2, 3, 4, 5, 6)]
+    jobs = [(job_save, (sc,)) for sc in (0, 1, 2, 3, 4, 5, 6, 7)]
     chk.bounds = {'scenarios': SCEN, 'symbolic': 'the value held by every entry of the variables map and every bound member variable (one symbol per effective value), every bunch current; f_s zero / non-zero explored separately'}
     chk.assumptions = ['reader contract trusted (boost::program_options config parser: key=value, repeated keys of a vector option accumulate, a float survives the decimal round trip iff >= 9 digits, a double iff >= 17)',
                        'std::ostream inserters are a recorder (kind, value term, precision in force); boost::program_options::variables_map::operator[] is a lookup in the snapshot\'s std::map',
